@@ -208,6 +208,21 @@ def c11_cases(tier, seed):
     pq = legal_only(promo_capture_positions(random.Random(seed + 5), 40 if tier == 'quick' else 600))
     for i, f in enumerate(pq[:60 if tier == 'quick' else 900]):
         cases.append({'id': len(cases), 'fen': f, 'hist': [], 'depth': 1 + i % 2, 'pq': True})
+    # king hunts: two heavy pieces against a bare king, depth 4 - series of checks, each extended by a ply, reach far
+    # below the nominal depth (large trees: a few of them, dumped with their own cap)
+    lad = []
+    lr = random.Random(seed + 9)
+    for kf in range(1, 7):
+        # rook ladder: the king on the fifth rank is driven to the edge by four checks (mate on the seventh half-move);
+        # the white pieces huddle in a corner so that the un-pruned tree stays below the cap
+        row5 = (str(kf) if kf else '') + 'k' + (str(7 - kf) if kf < 7 else '')
+        if kf >= 3:
+            lad.append('8/8/8/%s/R7/8/8/KR6 w - - 0 1' % row5)
+        if kf <= 4:
+            lad.append('8/8/8/%s/7R/8/8/6RK w - - 0 1' % row5)
+    lr.shuffle(lad)
+    for f in legal_only(lad)[:2 if tier == 'quick' else 24]:
+        cases.append({'id': len(cases), 'fen': f, 'hist': [], 'depth': 4, 'lad': True})
     # forced mates in two from sparse random material, depth 3: a longer (checking) mate is often visible in the same
     # iteration, so mate scores meet null windows, re-searches and cut-offs (small trees: many of them are affordable)
     pm2 = run_harness(['mate-cands', '--seed', seed + 17, '--n', 110 if tier == 'quick' else 2500, '--only', 'm2',
@@ -223,16 +238,19 @@ def run_c11(tier, seed, verdict, cov):
     cases = c11_cases(tier, seed)
     cap = 60000 if tier == 'quick' else 120000
     parts = max(1, min(NCPU - 2, 12))
-    chunks = [cases[i::parts] for i in range(parts)]
+    regular = [c for c in cases if not c.get('lad')]
+    chunks = [regular[i::parts] for i in range(parts)]
+    ladders = [c for c in cases if c.get('lad')]
+    chunks += [ladders[i::4] for i in range(4) if ladders[i::4]]          # the king hunts, with a cap of their own
 
     def dump(i):
         cp = os.path.join(d, 'cases-%d.ndjson' % i)
         write_cases(cp, chunks[i])
         od = os.path.join(d, 'trees-%d' % i)
-        p = run_harness(['tree-dump', '--cases', cp, '--outdir', od, '--cap', cap], timeout=3000)
+        p = run_harness(['tree-dump', '--cases', cp, '--outdir', od, '--cap', cap if i < parts else 450000], timeout=3000)
         return od
     with cf.ThreadPoolExecutor(max_workers=parts) as ex:
-        dirs = list(ex.map(dump, range(parts)))
+        dirs = list(ex.map(dump, range(len(chunks))))
     # batches of trees (ndjson, one tree per line), balanced by size
     trees = []
     for od in dirs:
@@ -303,7 +321,8 @@ def run_c11(tier, seed, verdict, cov):
     step_cases = [c for c in cases if c['depth'] <= 3 and not c.get('m2') and not c.get('pq')][:90 if tier == 'quick' else 2500]
     step_cases += [c for c in cases if c.get('m2')][:30 if tier == 'quick' else 800]
     step_cases += [c for c in cases if c.get('pq')][:30 if tier == 'quick' else 600]
-    schunks = [step_cases[i::parts] for i in range(parts)]
+    nsch = parts if tier == 'quick' else 48            # thorough: many small files, few TLC processes at a time (memory)
+    schunks = [c for c in (step_cases[i::nsch] for i in range(nsch)) if c]
 
     def steps(i):
         cp = os.path.join(d, 'step-cases-%d.ndjson' % i)
@@ -312,8 +331,8 @@ def run_c11(tier, seed, verdict, cov):
         run_harness(['search-steps', '--cases', cp, '--out', out, '--cap', 8000 if tier == 'quick' else 40000], timeout=6000)
         return out
     with cf.ThreadPoolExecutor(max_workers=parts) as ex:
-        sfiles = [f for f in ex.map(steps, range(parts)) if os.path.getsize(f) > 0]
-    with cf.ThreadPoolExecutor(max_workers=parts) as ex:
+        sfiles = [f for f in ex.map(steps, range(len(schunks))) if os.path.getsize(f) > 0]
+    with cf.ThreadPoolExecutor(max_workers=parts if tier == 'quick' else 5) as ex:
         sres = list(ex.map(lambda f: validate_search(f, 'STEP', big=True), sfiles))
     child_searches = 0
     for f, r in zip(sfiles, sres):
@@ -683,7 +702,8 @@ def run_c12_stores(tier, seed, verdict, cov, fens, d):
     rnd.shuffle(fl)
     fl = fl[:150 if tier == 'quick' else 3000]
     cases = [{'id': i, 'fen': f, 'hist': [], 'depth': 2 + (i % 2)} for i, f in enumerate(fl)]
-    chunks = [cases[i::parts] for i in range(parts)]
+    nch = parts if tier == 'quick' else 48
+    chunks = [cases[i::nch] for i in range(nch)]
     chunks = [c for c in chunks if c]
 
     def steps(i):
@@ -692,9 +712,9 @@ def run_c12_stores(tier, seed, verdict, cov, fens, d):
         out = os.path.join(d, 'store-%02d.ndjson' % i)
         run_harness(['search-steps', '--cases', cp, '--out', out, '--cap', 8000 if tier == 'quick' else 40000], timeout=6000)
         return out
-    with cf.ThreadPoolExecutor(max_workers=len(chunks)) as ex:
+    with cf.ThreadPoolExecutor(max_workers=parts) as ex:
         sfiles = [f for f in ex.map(steps, range(len(chunks))) if os.path.getsize(f) > 0]
-    with cf.ThreadPoolExecutor(max_workers=len(chunks)) as ex:
+    with cf.ThreadPoolExecutor(max_workers=parts if tier == 'quick' else 5) as ex:
         sres = list(ex.map(lambda f: validate_search(f, 'STORE', big=True), sfiles))
     writes = 0
     for f, r in zip(sfiles, sres):
